@@ -151,7 +151,9 @@ def run(module, cfg, *, workers=None, simulate=None, depth=None, seed=None, dump
     simulate: None or dict(num=, file=) for -simulate
     """
     wd = metadir or workdir('tlc')
-    props = ['-DTLA-Library=' + SPECS]
+    jtmp = os.path.join(wd, 'jtmp')          # TLC leaves an empty tlc-<n> directory in java.io.tmpdir at every start
+    os.makedirs(jtmp, exist_ok=True)
+    props = ['-DTLA-Library=' + SPECS, '-Djava.io.tmpdir=' + jtmp]
     if deque:
         props.append('-Dtlc2.tool.queue.IStateQueue=StateDeque')
     cmd = java_cmd(props) + ['tlc2.TLC', '-metadir', os.path.join(wd, 'meta'), '-noGenerateSpecTE', '-nowarning']
